@@ -16,6 +16,7 @@ import urllib.parse
 from common import vlib
 from common.vlib import g_bool, g_list, g_opt, g_pair, g_str, g_z
 
+import c20_download
 import c20_parse
 
 AREA = "Untrusted"
@@ -52,35 +53,8 @@ class FakeClock:
         self.spent += self.durations[min(self.fetches, len(self.durations) - 1)]
         self.fetches += 1
 
-
-class HttpClock:
-    """time module stand-in for mopidy.internal.http: frozen, unless the current
-    download is scripted as slow (then every reading after the first is far later)."""
-
-    def __init__(self):
-        self.slow = False
-        self.n = 0
-
-    def arm(self, slow):
-        self.slow = slow
-        self.n = 0
-
-    def time(self):
-        self.n += 1
-        return 0.0 if (not self.slow or self.n == 1) else 1e15
-
-
-class FakeResponse:
-    def __init__(self, ok, body):
-        self.ok = ok
-        self.reason = "OK" if ok else "Not Found"
-        self._body = body
-
-    def iter_content(self, chunk_size):
-        if not self._body:
-            yield b""
-        for i in range(0, len(self._body), max(1, chunk_size)):
-            yield self._body[i : i + chunk_size]
+    def add(self, d):
+        self.spent += d
 
 
 class World:
@@ -90,7 +64,8 @@ class World:
         self.nodes = nodes  # uri -> {"scan":..., "get":...}
         self.clock = clock
         self.http_clock = http_clock
-        self.trace = []  # (kind, uri, timeout, last clock reading)
+        self.trace = []  # (kind, uri, timeout, true time when issued)
+        self.responses = []  # (uri, timeout passed to session.get, ChunkedResponse)
 
     # scanner API
     def scan(self, uri, timeout=None):
@@ -109,7 +84,6 @@ class World:
         import requests.exceptions as rex
 
         self.trace.append(("download", uri, timeout, self.clock.now()))
-        self.clock.spend()
         node = self.nodes.get(uri)
         kind = node["get"][0] if node else "error"
         if kind == "timeout":
@@ -118,9 +92,13 @@ class World:
             raise rex.InvalidSchema("scripted")
         if kind == "error":
             raise rex.ConnectionError("scripted")
-        _, ok, slow, body = node["get"]
-        self.http_clock.arm(slow)
-        return FakeResponse(ok, body)
+        _, ok, durs, body = node["get"]
+        endless = durs[1] if isinstance(durs, tuple) else None
+        # the time the chunks take is also time the loop's own clock sees afterwards
+        resp = c20_download.ChunkedResponse(ok, body, [] if endless is not None else durs, self.http_clock, endless=endless,
+                                            on_time=self.clock.add)
+        self.responses.append((uri, timeout, resp))
+        return resp
 
 
 class ScanResult:
@@ -176,9 +154,9 @@ def gen_graph(rng, shape):
             scan = rng.choice([("error",), ("result", False, None), ("result", False, "text/plain"), ("result", False, "application/x-mpegurl")])
             refs = [ref_to(rng, i, (i + 1) % n if rng.random() < 0.7 else rng.randrange(n))]
             refs += [ref_to(rng, i, rng.randrange(n)) for _ in range(rng.randint(0, 2))]
-            get = ("response", True, False, gen_body(rng, refs))
+            get = ("response", True, rng.choice([[0], [0, 0], [0, 0, 0]]), gen_body(rng, refs))
             if not _parse(get[3]):
-                get = ("response", True, False, ("#EXTM3U\n" + "\n".join(refs) + "\n").encode())
+                get = ("response", True, [0], ("#EXTM3U\n" + "\n".join(refs) + "\n").encode())
         else:
             scan = rng.weighted([(("error",), 3), (("result", False, rng.choice(MIMES)), 4), (("result", True, rng.choice(MIMES)), 1)])
             k = rng.weighted([("response", 8), ("timeout", 0.5), ("schema", 0.5), ("error", 1)])
@@ -187,12 +165,21 @@ def gen_graph(rng, shape):
                 for _ in range(rng.randint(0, 3)):
                     refs.append(ref_to(rng, i, rng.randrange(n)) if rng.random() < 0.8 else rng.choice(BAD_REFS))
                 ok = rng.random() < 0.9
-                slow = rng.random() < 0.06
-                get = ("response", ok, slow, gen_body(rng, refs))
+                get = ("response", ok, gen_durs(rng), gen_body(rng, refs))
             else:
                 get = (k,)
         nodes[node_uri(i)] = {"scan": scan, "get": get}
     return nodes
+
+
+def gen_durs(rng):
+    """Chunk arrival times of a body: a list, or ("endless", d) for a body that never ends."""
+    k = rng.weighted([("instant", 6), ("timed", 3), ("endless", 0.8)])
+    if k == "instant":
+        return [0] * rng.randint(1, 3)
+    if k == "endless":
+        return ("endless", rng.choice([1, 2, 7]))
+    return [rng.choice([0, 0, 0, 1, 2, 7, 100]) for _ in range(rng.randint(1, 4))]
 
 
 def _parse(body):
@@ -248,7 +235,9 @@ def g_get(g, uris):
         return "GetInvalidSchema"
     if g[0] == "error":
         return "GetRequestException"
-    return f"(GetResponse {g_bool(g[1])} {g_bool(g[2])} {g_list([g_str(u) for u in uris])})"
+    # an endless body is, for the model, a long enough run of chunks (64 * d * 1000 exceeds every generated timeout)
+    durs = [g[2][1]] * 64 if isinstance(g[2], tuple) else g[2]
+    return f"(GetResponse {g_bool(g[1])} {g_list([g_z(d) for d in durs])} {g_list([g_str(u) for u in uris])})"
 
 
 def header():
@@ -298,7 +287,7 @@ def case_term(c):
 
 def run_impl(actor, http, case):
     clock = FakeClock(case["script"], case.get("durations", [0]))
-    hclock = HttpClock()
+    hclock = c20_download.VirtualClock(0)
     world = World(case["nodes"], clock, hclock)
     old_a, old_h = actor.time, http.time
     actor.time, http.time = clock, hclock
@@ -322,6 +311,7 @@ def run_impl(actor, http, case):
         log.append((kind, uri, int(round(t)), last))
     # the clock oracle's outcome as the implementation observed it (what the model is given)
     case["obs"], case["log"], case["clock"] = obs, log, clock.readings or [case["script"][0]]
+    case["downloads"] = [(u, int(round(t * 1000)), r.times, r.delivered) for u, t, r in world.responses]
     return case
 
 
@@ -351,6 +341,13 @@ def monitors(chk, case):
             chk.monitor_failure("deadline_respected", {"call": "_unwrap_stream", "kind": kind},
                                 "a fetch was issued after the deadline or with a timeout other than the time left at that moment",
                                 {**meta, "log": log, "fetch": [kind, u, t, last], "deadline": deadline})
+            good = False
+            break
+    for u, dt, times, delivered in case["downloads"]:
+        if not c20_download.deadline_respected(times, dt):
+            chk.monitor_failure("download_deadline_respected", {"call": "_unwrap_stream"},
+                                "http.download kept pulling chunks after the time left for the unwrapping had passed",
+                                {**meta, "uri": u, "time_left": dt, "chunk_times": times[:12], "chunks_pulled": delivered})
             good = False
             break
     if case["shape"] == "cycle" and obs[1] is not None:
@@ -391,26 +388,29 @@ def prepare(case):
 
 CORPUS = [
     # self reference
-    {"shape": "cycle", "nodes": {node_uri(0): {"scan": ("error",), "get": ("response", True, False, b"#EXTM3U\nl0.m3u\n")}},
+    {"shape": "cycle", "nodes": {node_uri(0): {"scan": ("error",), "get": ("response", True, [0], b"#EXTM3U\nl0.m3u\n")}},
      "start": node_uri(0), "script": [0, 1, 2, 3, 4, 5, 6, 7, 8], "timeout": 100},
     # two-cycle via relative reference, second node's scan says text/plain
-    {"shape": "cycle", "nodes": {node_uri(0): {"scan": ("result", False, "text/plain"), "get": ("response", True, False, b"../d1/l1.m3u\nhttp://x/\n#EXTM3U\n../d1/l1.m3u")},
-                                 node_uri(1): {"scan": ("error",), "get": ("response", True, False, b"[playlist]\nnumberofentries=1\nFile1=" + node_uri(0).encode() + b"\n")}},
+    {"shape": "cycle", "nodes": {node_uri(0): {"scan": ("result", False, "text/plain"), "get": ("response", True, [0], b"../d1/l1.m3u\nhttp://x/\n#EXTM3U\n../d1/l1.m3u")},
+                                 node_uri(1): {"scan": ("error",), "get": ("response", True, [0], b"[playlist]\nnumberofentries=1\nFile1=" + node_uri(0).encode() + b"\n")}},
      "start": node_uri(0), "script": [5] * 12, "timeout": 1},
     # the scan itself uses up the time: the download must not be attempted
-    {"shape": "random", "nodes": {node_uri(0): {"scan": ("error",), "get": ("response", True, False, b"http://h.example/d0/x.mp3\n")}},
+    {"shape": "random", "nodes": {node_uri(0): {"scan": ("error",), "get": ("response", True, [0], b"http://h.example/d0/x.mp3\n")}},
      "start": node_uri(0), "script": [0, 1, 2, 3, 4], "durations": [50, 0], "timeout": 10},
     # deadline passes between scan and download
-    {"shape": "random", "nodes": {node_uri(0): {"scan": ("error",), "get": ("response", True, False, b"http://h.example/d0/x.mp3\n")}},
+    {"shape": "random", "nodes": {node_uri(0): {"scan": ("error",), "get": ("response", True, [0], b"http://h.example/d0/x.mp3\n")}},
      "start": node_uri(0), "script": [0, 1, 2, 11, 12], "timeout": 10},
     # deadline exactly reached: scan gets timeout 0
     {"shape": "random", "nodes": {node_uri(0): {"scan": ("result", True, None), "get": ("error",)}},
      "start": node_uri(0), "script": [0, 9, 10, 10], "timeout": 10},
     # malformed reference makes urljoin raise
-    {"shape": "random", "nodes": {node_uri(0): {"scan": ("error",), "get": ("response", True, False, b"#EXTM3U\nhttp://[::1\n")}},
+    {"shape": "random", "nodes": {node_uri(0): {"scan": ("error",), "get": ("response", True, [0], b"#EXTM3U\nhttp://[::1\n")}},
      "start": node_uri(0), "script": [0, 1, 2, 3, 4, 5, 6], "timeout": 100},
+    # a stream that the scanner does not recognise and that never ends: the download must give up
+    {"shape": "random", "nodes": {node_uri(0): {"scan": ("error",), "get": ("response", True, ("endless", 1), b"")}},
+     "start": node_uri(0), "script": [0, 1, 2, 3, 4], "timeout": 3000},
     # slow download, failed status, playable application/ogg, interesting mime but not playable
-    {"shape": "random", "nodes": {node_uri(0): {"scan": ("result", False, "application/x-mpegurl"), "get": ("response", True, True, b"a:b\n")}},
+    {"shape": "random", "nodes": {node_uri(0): {"scan": ("result", False, "application/x-mpegurl"), "get": ("response", True, [0, 100], b"a:b\n")}},
      "start": node_uri(0), "script": [0, 1, 2, 3, 4], "timeout": 100},
     {"shape": "random", "nodes": {node_uri(0): {"scan": ("result", False, "audio/mpeg"), "get": ("error",)}},
      "start": node_uri(0), "script": [0, 1, 2, 3, 4], "timeout": 100},
